@@ -1543,12 +1543,16 @@ def run_e2e(ctx, exe, sc, n, npts, findings, stats):
     _, lo = vlib.run_lines([exe], leaf_lines)
     surfs = [[] for _ in objs]
     bad = set()
-    for i, o in zip(leaf_owner, lo):
+    ell_lower = set()      # objects with an ellipsoid leaf that was emitted as a lower-class surface
+    leaf_regs = [reg for o in objs for reg, _ in object_leaves(o)]
+    for i, o, reg in zip(leaf_owner, lo, leaf_regs):
         b = parse_build(o)
         if b is None:
             bad.add(i)
         else:
             surfs[i] += [(tag, d) for _, _, tag, d in b["nodes"]]
+            if reg["type"] == "ellipsoid" and any(tag not in ("sq", "gq", "s", "sc") for _, _, tag, _ in b["nodes"]):
+                ell_lower.add(i)
     lines, meta = [], []
     for i, o in enumerate(objs):
         if i in bad:
@@ -1597,6 +1601,8 @@ def run_e2e(ctx, exe, sc, n, npts, findings, stats):
                 tw = sum(genprism_twisted_faces(r) for r, _ in object_leaves(o) if r["type"] == "genprism")
                 if kind == "e2e" and tw > sum(1 for tag, _ in surfs[i] if tag in ("gq", "sq")):
                     kind = "e2e/genprism-planar"
+                if kind == "e2e" and i in ell_lower:
+                    kind = "e2e/ellipsoid-cyl"
                 findings.append((kind, o, tol, None, l, {"point": p, "expected": exp, "located": chars[j],
                                                          "object": object_words_readable(o)}))
     return len(lines), n_eval
@@ -1671,6 +1677,8 @@ def classify(kind, reg, info):
         return "transformed-surface-sense-differs:" + t
     if kind == "e2e-crash":
         return "e2e-crash"
+    if kind == "e2e/ellipsoid-cyl":
+        return "ellipsoid-simplified-to-cylinder"
     if kind == "e2e/genprism-planar":
         return "genprism-twisted-face-emitted-planar"
     if kind == "e2e/cone-merge":
@@ -1738,9 +1746,9 @@ def run_part(ctx):
         ctx.rng, findings, 24 if quick else 40)
     n_simp, div_simp, simp_crash = run_simplify_diff(ctx, exe, model, (20000 if quick else 300000) * boost)
     n_xf, n_xf_or, div_xf = run_xform_diff(ctx, exe, model, (5000 if quick else 100000) * boost, findings)
-    n_sq, div_sq = run_softeq(ctx, exe, model, (4000 if quick else 60000) * boost, findings)
+    n_sq, div_sq = run_softeq(ctx, exe, model, (4000 if quick else 40000) * boost, findings)
     n_pair, n_pair_nodes, n_pair_merged, div_pair = run_pairs(
-        ctx, exe, model, sc, (1500 if quick else 20000) * boost, findings, stats)
+        ctx, exe, model, sc, (1500 if quick else 10000) * boost, findings, stats)
     n_e2e, n_e2e_eval = run_e2e(ctx, exe, sc, (300 if quick else 4000) * boost, 40 if quick else 80,
                                 findings, stats)
     diverged = div_corpus + div_build + div_mem + div_simp + div_xf + div_sq + div_pair
